@@ -186,6 +186,12 @@ def step(objs, st, o):
                 r = np.unique(a, axis=-1)
             elif name == "unique_obs":
                 return ["obs", ER.proj_any(np.unique(a, axis=-1))]
+            elif name == "nonzero_obs":
+                return ["obs", ER.proj_any(a.nonzero())]
+            elif name == "colsum_obs":
+                return ["obs", ER.proj_any(a.sum(axis=0))]
+            elif name == "pad_obs":
+                return ["obs", ER.proj_any(a.as_padded_matrix())]
             elif name == "astype":
                 r = a.astype(a.dtype)
             elif name in ("sum", "max", "min", "mean", "argmax", "argmin"):
